@@ -1,10 +1,8 @@
 (* C10 Re-building an existing PURL is the identity *)
 Load "coq/props/Hdr".
 From PM Require Import BuildG BuildGen C01P Assemble.
-Lemma src_rt : rt_ok cfg. Proof. apply conds_rt_ok. vm_compute. reflexivity. Qed.
-Lemma src_tbl : tbl_ok cfg. Proof. apply conds_tbl_ok. vm_compute. reflexivity. Qed.
-Lemma src_cfg_ok : cfg_ok cfg. Proof. exact (rt_cfg _ src_rt). Qed.
-Ltac sc := sidecond_with src_rt src_tbl.
+Lemma src_rt : rt_ok cfg. Proof. prove_rt. Qed.
+Lemma src_cfg_ok : cfg_ok cfg. Proof. sc. Qed.
 Lemma G_st : finish_stable G. Proof. apply G_finish_stable. Qed.
 Lemma P_st : finish_stable P. Proof. apply (pt_finish_stable cfg src_rt); sc. Qed.
 Theorem C10_parsed_generic : forall s t p, parse cfg G s = Ok (t, p) -> build cfg G t p = Ok (t, p).
